@@ -126,6 +126,13 @@ def handle (line : String) : String :=
       | some se => if lt = 0 then hexRes (Rfc.merkleTreeLeaf ⟨v, ⟨t, se, ext⟩⟩) else "err"
       | none => "err"
     | _, _, _, _, _ => "bad-op"
+  | "SJ" :: "MerkleTreeLeaf" :: f =>
+    match kvNat f "v", kvNat f "ts", kvHex f "data", kvHex f "ext" with
+    | some v, some t, some d, some ext =>
+      match Tls.enc CtWire.tMerkleTreeLeaf (.struct [.num v, .num 0, .struct [.num t, .num 32768, .absent, .absent, .struct [.bytes d], .bytes ext]]) with
+      | .ok bs => hexOrDash bs
+      | .error _ => "err"
+    | _, _, _, _ => "bad-op"
   | "S" :: "TimestampedEntry" :: f =>
     match parseEntry f, kvNat f "ts", kvHex f "ext" with
     | some e, some t, some ext =>
@@ -173,7 +180,15 @@ def handle (line : String) : String :=
     match fromHex h with
     | none => "bad-op"
     | some bs =>
-      if name = "MerkleTreeLeaf" then decRes (Rfc.decMerkleTreeLeaf bs) showLeaf
+      if name = "MerkleTreeLeaf" then
+        match Rfc.decMerkleTreeLeaf bs with
+        | some r => decRes (some r) showLeaf
+        | none =>
+          -- not an RFC leaf; the repository's JSON extension (entry type 0x8000) is answered from the regenerated type
+          match Tls.dec CtWire.tMerkleTreeLeaf bs with
+          | .ok (.struct [.num v, .num 0, .struct [.num t, .num 32768, .absent, .absent, .struct [.bytes d], .bytes ext]], rest) =>
+            s!"ok json v={v} ts={t} data={hexOrDash d} ext={hexOrDash ext} rest={hexOrDash rest}"
+          | _ => "err"
       else if name = "SCT" then decRes (Rfc.decSct bs) fun s =>
         s!"v={s.version} id={hexOrDash s.logID} ts={s.timestamp} ext={hexOrDash s.extensions} {showDS s.signature}"
       else if name = "DS" then decRes (Rfc.decDigitallySigned bs) showDS
@@ -198,14 +213,14 @@ def handle (line : String) : String :=
       match b64Decode (asciiOf e64) with
       | none => "err"
       | some ext =>
-        match CtWire.toSCT v id t ext sig with
+        match CtWire.toSCTRfc v id t ext sig with
         | some s => s!"ok v={s.version} id={hexOrDash s.logID} ts={s.timestamp} ext={hexOrDash s.extensions} {showDS s.signature}"
         | none => "err"
     | _, _, _, _, _ => "bad-op"
   | "TOSTH" :: f =>
     match kvNat f "size", kvNat f "ts", kvHex f "root", kvHex f "sig" with
     | some n, some t, some root, some sig =>
-      match CtWire.toSTH n t root sig with
+      match CtWire.toSTHRfc n t root sig with
       | some s => s!"ok size={s.treeSize} ts={s.timestamp} root={hexOrDash s.rootHash} {showDS s.signature}"
       | none => "err"
     | _, _, _, _ => "bad-op"
